@@ -32,6 +32,14 @@ SCHED = ("Each case is a small concurrent program plus a schedule: the executor 
          "and picks the next thread at every synchronisation operation / harness yield from the generated choice vector "
          "(modes: empty, sparse with p in {1/8,1/4,1/2}, uniform). Distinct = distinct case text (program + schedule). ")
 
+# libFuzzer second engine (thorough tier only): same case value, same executor, same oracle; runs (not seconds) bound it
+FUZZ = {
+    "C04": dict(group="ring", runs=60000, max_len=482, nkinds=21),
+    "C09": dict(group="ring", runs=60000, max_len=482, nkinds=21),
+    "C14": dict(group="array", runs=60000, max_len=322, nkinds=17),
+    "C19": dict(group="locale", runs=120000, max_len=320, nkinds=0),
+}
+
 RULE = {
     "C01": SCHED + "Programs: 2-5 (thorough 8) threads issuing read/write lock-unlock pairs (raw calls or ReadLock/WriteLock guards, 0-2 yields inside the "
            "section); shapes free mix / batch (writer holding across yields, >=2 readers, a further writer) / reader-heavy. Oracle: holder counters checked "
